@@ -11,8 +11,7 @@
 //! Output lines (tab separated, strings escaped with hxlib::runner::esc):
 //!   P  prog class source
 //!   S  prog sched                 (a run starts; if the process dies the last S names the run)
-//!   E  prog sched event           (first loss event of a known class in the current run)
-//!   R  prog sched class output value detail collections kf1 kf2 explained exposure
+//!   R  prog sched class output value detail collections nested_losses pending_seen exposure
 //!   X  prog sched coll signature detail
 //!   D  prog sched coll depth,ip,op  <Coq gcq term>  <Coq observation term>
 #[cfg(vbxq_aelys_lang_verif)]
@@ -243,16 +242,13 @@ mod imp {
     pub struct Recorder {
         pre: Option<Pre>,
         pub collections: u64,
-        pub kf1: u64,
-        pub kf2: u64,
-        pub explained: u64,
+        pub nested_losses: u64, // objects reachable only through nested-function constants that were freed
+        pub pending_seen: u64,  // collections that ran while MakeClosure held an unrooted function (must stay 0)
         pub exposure: u64, // collections at which some live function had heap pointers among its nested functions' constants
-        pub lost: BTreeSet<usize>,
         pub problems: Vec<(u64, String, String)>,
         pub dumps: Vec<(u64, (usize, usize, u8), String, String)>,
         pub max_dumps: usize,
         pub rng: Option<Rng>,
-        pub tag: String, // "<prog>\t<sched>" for the event lines printed while the run is in progress
     }
 
     fn fn_flat(f: &AuditFn, depth: u32, out: &mut Vec<(usize, bool)>) {
@@ -391,7 +387,6 @@ mod imp {
             if pre.objs.iter().any(|o| edges(o).iter().any(|e| e.2)) {
                 self.exposure += 1;
             }
-            let mut kf1_here = false;
             for &i in &reach_all {
                 if post_map.contains_key(&i) {
                     continue;
@@ -402,25 +397,19 @@ mod imp {
                     self.problem(format!("reachable-freed:{}:{}", how, k), format!("slot {} at op {}", i, pre.site.2));
                 } else {
                     // reachable only through the constants of a nested, not yet instantiated function
-                    kf1_here = true;
-                    self.lost.insert(i);
-                }
-            }
-            if kf1_here {
-                self.kf1 += 1;
-                if self.kf1 == 1 {
-                    println!("E\t{}\tnested-const-loss", self.tag);
+                    // (the defect repaired by /repo ad6fcd1)
+                    self.nested_losses += 1;
                     self.problem("reachable-freed:only-via-nested-function-constant".into(),
-                                 format!("collection {} at op {}", self.collections, pre.site.2));
+                                 format!("slot {} ({}) at op {}", i, k, pre.site.2));
                 }
             }
-            // (d) the function object MakeClosure holds in a local across its second safepoint
+            // (d) a function object MakeClosure holds only in a local (hook pending_fn).  Since /repo
+            // 9ba6d0e there is no safepoint while it is pending, so this never fires; if a safepoint
+            // is reintroduced there the loss is reported with its cause
             if let Some(p) = pre.pending {
-                if pre_map.contains_key(&p) && !post_map.contains_key(&p) {
-                    self.kf2 += 1;
-                    self.lost.insert(p);
-                    if self.kf2 == 1 {
-                        println!("E\t{}\tmakeclosure-fn-loss", self.tag);
+                if pre_map.contains_key(&p) && !reach_all.contains(&p) {
+                    self.pending_seen += 1;
+                    if !post_map.contains_key(&p) {
                         self.problem("unrooted-local-freed:makeclosure-function".into(),
                                      format!("collection {} slot {}", self.collections, p));
                     }
@@ -434,10 +423,8 @@ mod imp {
                 for (field, t, _) in edges(pre_map[&i]) {
                     match post_map.get(&t) {
                         None => {
-                            if self.lost.contains(&t) {
-                                self.explained += 1;
-                            } else if pre_map.contains_key(&t) {
-                                // freed now although referenced: already reported under (c)
+                            if pre_map.contains_key(&t) {
+                                // freed now although referenced: reported under (c)
                             } else {
                                 self.problem(format!("dangling-before-collection:{}", field), format!("slot {} -> {}", i, t));
                             }
@@ -450,11 +437,7 @@ mod imp {
                             };
                             if let Some(w) = want {
                                 if o.kind != w {
-                                    if self.lost.contains(&t) {
-                                        self.explained += 1;
-                                    } else {
-                                        self.problem(format!("wrong-kind:{}->{}", field, KIND[o.kind as usize]), format!("slot {} -> {}", i, t));
-                                    }
+                                    self.problem(format!("wrong-kind:{}->{}", field, KIND[o.kind as usize]), format!("slot {} -> {}", i, t));
                                 }
                             }
                         }
@@ -516,7 +499,6 @@ mod imp {
                     let rec = Rc::new(RefCell::new(Recorder {
                         max_dumps,
                         rng: Some(Rng::new(seed ^ ((idx as u64) << 20) ^ ((gc.0 as u64) << 8) ^ gc.1)),
-                        tag: format!("{}\t{}:{}", idx, gc.0, gc.1),
                         ..Default::default()
                     }));
                     // printed before the run so that a crash of the process can be attributed
@@ -528,8 +510,8 @@ mod imp {
                     verif::gc_audit_remove();
                     let rec = rec.borrow();
                     let s = format!("{}:{}", gc.0, gc.1);
-                    println!("R\t{}\t{}\t{}\t{}\t{}\t{}\t{}\t{}\t{}\t{}\t{}", idx, s, r.class, esc(&r.output), esc(&r.value),
-                             esc(&r.detail), rec.collections, rec.kf1, rec.kf2, rec.explained, rec.exposure);
+                    println!("R\t{}\t{}\t{}\t{}\t{}\t{}\t{}\t{}\t{}\t{}", idx, s, r.class, esc(&r.output), esc(&r.value),
+                             esc(&r.detail), rec.collections, rec.nested_losses, rec.pending_seen, rec.exposure);
                     for (c, sig, d) in &rec.problems {
                         println!("X\t{}\t{}\t{}\t{}\t{}", idx, s, c, sig, esc(d));
                     }
